@@ -19,6 +19,7 @@
 EXTENDS Integers, Sequences, FiniteSets, TLC, Json, IOUtils
 
 Structs == JsonDeserialize(IOEnv.PLAN_FILE).structs
+PinnedTags == JsonDeserialize(IOEnv.TAGS_FILE).tags        \* pinned [struct, field, tag] triples: the tag each member has on the wire
 Pinned == JsonDeserialize(IOEnv.VERSIONS_FILE).gated      \* pinned [struct, field, vmin] triples (KMIP 1.1 - 1.4 additions)
 
 SI == 1..Len(Structs)
@@ -99,6 +100,10 @@ Gating == \A i \in FI(c.s) :
 GatedNow == UNION {{<<Structs[s].name, Fields(s)[i].name, Fields(s)[i].vmin>> : i \in {j \in FI(s) : Fields(s)[j].vmin # 0}} : s \in SI}
 PinnedSet == {<<Pinned[k][1], Pinned[k][2], Pinned[k][3]>> : k \in 1..Len(Pinned)}
 AnnotationsPinned == GatedNow = PinnedSet
+\* C01, static: every member is written under the tag the KMIP specification gives it (a member's tag is derived from its name or its
+\* type by a lookup in the tag registry: what is registered there decides what goes on the wire)
+TagsNow == UNION {{<<Structs[s].name, Fields(s)[i].name, Fields(s)[i].tag>> : i \in FI(s)} : s \in SI}
+TagsPinned == TagsNow = {<<PinnedTags[k][1], PinnedTags[k][2], PinnedTags[k][3]>> : k \in 1..Len(PinnedTags)}
 \* the version register is set before any gated field can be reached: the set-version field is the first field of the headers
 SetVersionFirst == \A s \in SI : \A i \in FI(s) : Fields(s)[i].setver => i = 1
 
